@@ -7,6 +7,7 @@ import z3
 
 Z3_TIMEOUT_MS = int(os.environ.get('PYVC_Z3_TIMEOUT_MS', '10000'))
 CVC5_TIMEOUT_S = int(os.environ.get('PYVC_CVC5_TIMEOUT_S', '30'))
+RETRY_SEEDS = (3, 5, 11, 17, 23)
 EMATCH_FIRST_MS = int(os.environ.get('PYVC_EMATCH_FIRST_MS', '1'))   # 0 disables the E-matching-first attempt
 FEAS_TIMEOUT_MS = 1000
 
@@ -90,8 +91,26 @@ def prove(pc, goal, timeout_ms=None, want_model=True):
         return 'proved', 'z3', ms, None
     if r == z3.sat:
         return 'refuted', 'z3', ms, (s.model() if want_model else None)
-    # unknown: second z3 strategy, pure E-matching (no model-based quantifier instantiation)
+    # unknown with quantifiers: model-based instantiation is sensitive to the search order; a few
+    # short retries with other random seeds decide many of these (either way)
     if quantified:
+        for seed in RETRY_SEEDS:
+            sk = z3.Solver()
+            sk.set('timeout', min(3000, timeout_ms))
+            sk.set('random_seed', seed)
+            sk.add(*pc)
+            sk.add(z3.Not(goal))
+            t1 = time.time()
+            rk = sk.check()
+            msk = (time.time() - t1) * 1000
+            stats['z3_ms'] += msk
+            ms += msk
+            if rk == z3.unsat:
+                return 'proved', 'z3', ms, None
+            if rk == z3.sat:
+                return 'refuted', 'z3', ms, (sk.model() if want_model else None)
+    # unknown: second z3 strategy, pure E-matching (no model-based quantifier instantiation)
+    if quantified and not EMATCH_FIRST_MS:
         s2 = z3.Solver()
         s2.set('timeout', timeout_ms)
         s2.set('auto_config', False)
